@@ -960,7 +960,7 @@ def m_strsimple(I, recv, a, k, node, kind):
             pass
     meth = _mname(I, node)
     rk = _k(recv)
-    if meth in ('isdigit', 'isspace', 'isalnum', 'isdecimal', 'isnumeric'):
+    if meth in ('isdigit', 'isspace', 'isalnum', 'isdecimal', 'isnumeric', 'isupper', 'islower', 'isalpha', 'isidentifier', 'istitle'):
         return Unk('cond', kinds=['bool'], taint=tj(recv), src=('cond', lambda t: None))
     if meth == 'count':
         return Unk('count', kinds=['int'], taint=tj(recv), src=('method', recv, meth, a))
@@ -1421,7 +1421,8 @@ METHODS = {
     'removesuffix': m_removeaffix, 'removeprefix': m_removeaffix,
     'lower': m_strsimple, 'upper': m_strsimple, 'replace': m_strsimple, 'splitlines': m_strsimple,
     'count': m_strsimple, 'isdigit': m_strsimple, 'isspace': m_strsimple, 'isalnum': m_strsimple,
-    'isdecimal': m_strsimple, 'isnumeric': m_strsimple, 'title': m_strsimple, 'partition': m_strsimple,
+    'isdecimal': m_strsimple, 'isnumeric': m_strsimple, 'isupper': m_strsimple, 'islower': m_strsimple, 'isalpha': m_strsimple,
+    'isidentifier': m_strsimple, 'istitle': m_strsimple, 'capitalize': m_strsimple, 'swapcase': m_strsimple, 'title': m_strsimple, 'partition': m_strsimple,
     'rpartition': m_strsimple, 'zfill': m_strsimple, 'translate': m_strsimple, 'casefold': m_strsimple,
     'get': m_get, 'pop': m_pop, 'items': m_items, 'keys': m_keys, 'values': m_values, 'copy': m_copy,
     'update': m_update, 'clear': m_clear, 'setdefault': m_setdefault,
